@@ -2013,6 +2013,36 @@ theorem getInterval_eq (m : Backoff.Map) (k : Nat) :
     getInterval m k = (amSet k (incr ((amLookup k m).getD initial)) m, bounds ((amLookup k m).getD initial)) := by
   simp [getInterval, Gen.Queue.backoffDefaultCtor, Gen.Queue.backoffMaxElapsedZero]
 
+/-- **the regenerated rule of runReconcile's failure branch** (rests on `Gen.Queue.outcomeSwitchKnown`,
+    `Gen.Queue.failBackoffGuard`): the error backoff supplies the interval exactly when the failure
+    brings none of its own — whether or not the error was a RequeueError -/
+theorem genRules_failBackoff (requeued : Bool) (i : Nat) : genRules.failBackoff requeued i = (i == 0) := by
+  have h1 : Gen.Queue.outcomeSwitchKnown = true := by decide
+  have h2 : Gen.Queue.failBackoffGuard = .intervalZero := by decide
+  simp [genRules, h1, h2]
+
+/-- the model of the current source text, written out -/
+theorem decision_eq (m : Backoff.Map) (k : Nat) (o : Outcome) :
+    decision m k o =
+      (match o.err with
+       | .skip => (Backoff.clear m k, if o.requeue.getD 0 ≠ 0 then .requeueIn (o.requeue.getD 0) (o.requeue.getD 0) else .release)
+       | .fail =>
+         if o.requeue.getD 0 = 0 then
+           ((Backoff.getInterval m k).1,
+            if (Backoff.getInterval m k).2.2 ≠ 0 then
+              .requeueIn (Backoff.getInterval m k).2.1 (Backoff.getInterval m k).2.2 else .release)
+         else (m, .requeueIn (o.requeue.getD 0) (o.requeue.getD 0))
+       | .none => (Backoff.clear m k, if o.requeue.getD 0 ≠ 0 then .requeueIn (o.requeue.getD 0) (o.requeue.getD 0) else .release)) := by
+  unfold decision decisionWith
+  cases he : o.err with
+  | none => rfl
+  | skip => rfl
+  | fail =>
+    simp only [genRules_failBackoff]
+    by_cases hi : o.requeue.getD 0 = 0
+    · simp [hi]
+    · simp [hi]
+
 theorem decision_rel (k k' : Nat) (o : Outcome) (m : Backoff.Map) (n : Nat) (h : MapRel k m n) :
     MapRel k (decision m k' o).1
       (if k' = k then
@@ -2023,7 +2053,7 @@ theorem decision_rel (k k' : Nat) (o : Outcome) (m : Backoff.Map) (n : Nat) (h :
   by_cases hk : k' = k
   · subst hk
     simp only [if_true]
-    unfold decision
+    rw [decision_eq]
     cases he : o.err with
     | none => exact clear_rel k' m n h
     | skip => exact clear_rel k' m n h
@@ -2035,7 +2065,7 @@ theorem decision_rel (k k' : Nat) (o : Outcome) (m : Backoff.Map) (n : Nat) (h :
       · simp only [hi, if_false]; exact h
   · simp only [hk, if_false]
     have hne : k ≠ k' := fun e => hk e.symm
-    unfold decision
+    rw [decision_eq]
     cases he : o.err with
     | none => exact clear_other k k' m n hne h
     | skip => exact clear_other k k' m n hne h
@@ -2067,7 +2097,7 @@ theorem backoff_schedule (hist : List (Nat × Outcome)) (k : Nat) :
     (decision (runOutcomes [] hist) k Outcome.error).2 =
       Decision.requeueIn (bounds (base (streak k hist 0))).1 (bounds (base (streak k hist 0))).2 := by
   have h := runOutcomes_rel k hist [] 0 ⟨by simp [amKeys], fun _ => rfl, fun h0 => absurd h0 (Nat.lt_irrefl 0)⟩
-  simp only [decision, Outcome.error, Option.getD_none, if_true, getInterval_eq,
+  simp only [decision_eq, Outcome.error, Option.getD_none, if_true, getInterval_eq,
     cur_of_rel k _ _ h, bounds_ne_zero, ne_eq, not_false_eq_true]
 
 /-- a panic is handled exactly like an error (recovered in runOnce) -/
@@ -2096,7 +2126,7 @@ theorem outcome_table (m : Backoff.Map) (k i : Nat) (hi : i ≠ 0) :
     (decision m k (Outcome.requeueOnly i)) = (clear m k, .requeueIn i i) ∧
     (decision m k (Outcome.requeueErr i)) = (m, .requeueIn i i) ∧
     (decision m k Outcome.ok).1 = clear m k ∧ (decision m k Outcome.skip).1 = clear m k := by
-  simp [decision, Outcome.ok, Outcome.skip, Outcome.requeueOnly, Outcome.requeueErr, hi]
+  simp [decision_eq, Outcome.ok, Outcome.skip, Outcome.requeueOnly, Outcome.requeueErr, hi]
 
 /-- the base interval: 500 ms · 1.5ⁿ (each step truncated to whole ns) capped at 60 s -/
 theorem base_step (n : Nat) :
